@@ -24,7 +24,7 @@ Off == [on |-> FALSE]
 On(v) == [on |-> TRUE, v |-> v]
 
 \* four constants: all relative orders and ties of up to four bounds occur
-VInt == {-4, 0, 4, 8}      \* -1, 0, 1, 2          (quarters)
+VInt == {-4, 0, 6, 8}      \* -1, 0, 1.5, 2        (quarters; a non-integral bound on an integer is legal)
 VNum == {-2, 0, 1, 6}      \* -0.5, 0, 0.25, 1.5
 V(t_) == IF t_ = "integer" THEN VInt ELSE VNum
 Mults(t_) == IF t_ = "integer" THEN {4, 8, 12} ELSE {1, 2, 6}   \* 1,2,3 / 0.25,0.5,1.5
@@ -50,10 +50,11 @@ Unit(ty_, pos_, min_, max_, emin_, emax_, mult_) ==
       lo       == (CHOOSE m \in V(ty_) : \A w \in V(ty_) : m <= w) - 2 * step
       hi       == (CHOOSE m \in V(ty_) : \A w \in V(ty_) : m >= w) + 2 * step
       grid     == [i \in 1..((hi - lo) \div step + 1) |-> JNum(lo + (i - 1) * step)]
-      vals     == IF ty_ = "integer" THEN grid \o <<JNum(2), JNum(-3)>> ELSE grid
+      vals     == IF ty_ = "integer" THEN grid \o <<JNum(2), JNum(-3), JNum(6)>> ELSE grid
       leaf     == NumSchema(ty_, FALSE, min_, max_, emin_, emax_, mult_)
       \* a default that satisfies the leaf, if the grid holds one (else the position degenerates to "opt")
-      okv      == {i \in DOMAIN grid : NumOK(leaf, grid[i], {})}
+      okv      == {i \in DOMAIN grid : NumOK(leaf, grid[i], {}) /\ NumOK(leaf, grid[i], Devs)
+                                        /\ (ty_ = "integer" => IsIntegral(grid[i]))}
       p        == IF pos_ = "optdefault" /\ okv = {} THEN "opt" ELSE pos_
       dflt     == IF okv = {} THEN JNull ELSE grid[CHOOSE i \in okv : \A j \in okv : i <= j]
   IN PosUnit("C05", p, leaf, vals, dflt)
